@@ -8,6 +8,7 @@ import (
 	"errors"
 	"fmt"
 	"net"
+	"sort"
 	"strconv"
 	"strings"
 	"sync"
@@ -55,6 +56,9 @@ type rmDomAct struct {
 	Dot     string `json:"dot,omitempty"`  // "", temp, drop, dropafter (250, then the connection is closed)
 	Rset    string `json:"rset,omitempty"` // "", drop (the RSET that precedes pooling is not answered)
 	DelayUS int    `json:"delay_us,omitempty"`
+	// Fault (next-hop fault matrix, remote_fault_test.go): one scripted reply class at one stage of this
+	// delivery's transaction with the domain's next hop.
+	Fault *rmFault `json:"fault,omitempty"`
 }
 
 type rmDelivery struct {
@@ -70,6 +74,8 @@ type rmDelivery struct {
 	RequireTLS  bool `json:"requiretls,omitempty"`      // MAIL ... REQUIRETLS
 	Quarantine  bool `json:"quarantine,omitempty"`      // refused before any connection
 	TLSOverride bool `json:"tls_required_no,omitempty"` // TLS-Required: No - policies skipped, connection never pooled
+	// BodyBytes: size of the message body (0 = the 6-byte body of the first version).
+	BodyBytes int `json:"body_bytes,omitempty"`
 }
 
 // rmProfile describes how the next hop of one destination domain presents itself.
@@ -85,6 +91,9 @@ type rmProfile struct {
 	STS string `json:"sts"`
 	// AdvertiseRequireTLS: the server lists REQUIRETLS in EHLO.
 	AdvertiseRequireTLS bool `json:"advertise_requiretls"`
+	// ConnFaults: scripted reply classes at the connection-level stages (greeting, EHLO, EHLO after
+	// STARTTLS, STARTTLS) of the next hop's n-th accepted connection (key = connection number).
+	ConnFaults map[int]rmFault `json:"conn_faults,omitempty"`
 }
 
 type rmScenario struct {
@@ -101,6 +110,8 @@ type rmScenario struct {
 	LocalPolicy string `json:"local_policy,omitempty"`  // "", min-tls-encrypted, min-tls-authenticated, min-mx-mtasts
 	StrictRTLS  bool   `json:"relaxed_requiretls_off"`  // relaxed_requiretls no
 	NoOverride  bool   `json:"requiretls_override_off"` // requiretls_override no
+	// CmdTimeoutMS > 0: command_timeout and submission_timeout of the target (fault matrix, class stall); 0 = production 5 min / 12 min
+	CmdTimeoutMS int `json:"command_timeout_ms,omitempty"`
 }
 
 func rmDomain(k int) string { return fmt.Sprintf("d%d.example", k) }
@@ -202,6 +213,9 @@ type rmStats struct {
 	greetRefused, ehloRefused, dialRefused  atomic.Int64
 	rsetDropped, closedAfterCommit          atomic.Int64
 	refusals                                sync.Map // exit path class -> *atomic.Int64
+	faults                                  sync.Map // served next-hop faults: stage_<stage> / class_<class> -> *atomic.Int64
+	faultCells                              sync.Map // "<stage>/<class>" served
+	bodyExits                               sync.Map // class of a Body error -> *atomic.Int64
 	others                                  sync.Map // texts of unclassified AddRcpt errors (digits and addresses stripped)
 }
 
@@ -246,6 +260,8 @@ func classifyRcptErr(err error) string {
 		return "ehlo_refused"
 	case has("TLS not available due to temporary reason"):
 		return "starttls_refused_454"
+	case has("c11 fault at"):
+		return "scripted_nexthop_fault"
 	case has("sender refused") || has("sender deferred"):
 		return "mail_rejected_by_next_hop"
 	case has("no such user"):
@@ -333,6 +349,25 @@ func runRemoteCases(t *testing.T, r *rep.Reporter, env instrEnv) {
 		r.Run(idx, fmt.Sprintf("remote-%d", i), func(c *rep.Case) {
 			p := prng.New(r.Seed(), uint64(idx), "c11/remote")
 			sc := genRemoteScenario(p)
+			runRemoteScenario(t, r, c, idx, i, sc)
+		})
+	}
+	// next-hop fault matrix (remote_fault_test.go): own index range and PRNG stream
+	n = r.N(rmFaultQuick, rmFaultThorough)
+	for i := 0; i < n; i++ {
+		idx := baseRemoteFault + i
+		r.Run(idx, fmt.Sprintf("remote-nexthop-%d", i), func(c *rep.Case) {
+			p := prng.New(r.Seed(), uint64(idx), "c11/remote-nexthop")
+			sc := genRemoteFaultScenario(p, i)
+			runRemoteScenario(t, r, c, idx, i, sc)
+		})
+	}
+}
+
+// runRemoteScenario runs one generated scenario against the real remote target.
+func runRemoteScenario(t *testing.T, r *rep.Reporter, c *rep.Case, idx, i int, sc rmScenario) {
+	{ // (two blocks only keep the indentation of the body as it was inside r.Run's closure)
+		{
 			g, err := buildGroup(sc.Text)
 			if err != nil {
 				t.Fatalf("case %d: limits.Init(%q): %v", idx, sc.Text, err)
@@ -360,6 +395,8 @@ func runRemoteCases(t *testing.T, r *rep.Reporter, env instrEnv) {
 					cfg.STARTTLS = true
 					cfg.StartTLSBroken = prof.TLS
 				}
+				var lastMu sync.Mutex
+				lastDel := map[int][2]int{} // connection -> (worker, delivery) of its latest MAIL
 				cfg.Script = func(ev smtpd.Event) *smtpd.Action {
 					switch {
 					case ev.Stage == smtpd.StageConnect && prof.Reach == "greet-refuse":
@@ -369,11 +406,39 @@ func runRemoteCases(t *testing.T, r *rep.Reporter, env instrEnv) {
 						st.ehloRefused.Add(1)
 						return &smtpd.Action{Code: 550, Enh: "5.7.1", Text: []string{"go away"}}
 					}
+					// connection-level faults of the fault matrix: keyed by the connection number
+					if f, have := prof.ConnFaults[ev.Conn]; have && f.matches(ev) {
+						st.fault(f, ev)
+						return f.action()
+					}
 					w, dk, ok := deliveryOf(ev.From)
+					if ok && ev.Stage == smtpd.StageMail {
+						lastMu.Lock()
+						lastDel[ev.Conn] = [2]int{w, dk}
+						lastMu.Unlock()
+					}
+					if !ok && (ev.Stage == smtpd.StageRset || ev.Stage == smtpd.StageQuit) {
+						// outside a transaction the command belongs to the delivery whose MAIL was
+						// the last one on this connection (RSET before pooling, QUIT in Close)
+						lastMu.Lock()
+						ld, have := lastDel[ev.Conn]
+						lastMu.Unlock()
+						if have && ld[0] < len(sc.Plans) && ld[1] < len(sc.Plans[ld[0]]) {
+							if f := sc.Plans[ld[0]][ld[1]].Acts[k].Fault; f != nil && f.matches(ev) {
+								st.fault(*f, ev)
+								return f.action()
+							}
+						}
+						return nil
+					}
 					if !ok || w >= len(sc.Plans) || dk >= len(sc.Plans[w]) {
 						return nil
 					}
 					a := sc.Plans[w][dk].Acts[k]
+					if a.Fault != nil && a.Fault.matches(ev) {
+						st.fault(*a.Fault, ev)
+						return a.Fault.action()
+					}
 					delay := time.Duration(a.DelayUS) * time.Microsecond
 					switch ev.Stage {
 					case smtpd.StageMail:
@@ -486,6 +551,10 @@ func runRemoteCases(t *testing.T, r *rep.Reporter, env instrEnv) {
 			} else {
 				opts.NoTLS = true
 			}
+			if sc.CmdTimeoutMS > 0 {
+				opts.CommandTimeout = time.Duration(sc.CmdTimeoutMS) * time.Millisecond
+				opts.SubmissionTimeout = opts.CommandTimeout
+			}
 			no := false
 			if sc.StrictRTLS {
 				opts.RelaxedRequireTLS = &no
@@ -531,7 +600,11 @@ func runRemoteCases(t *testing.T, r *rep.Reporter, env instrEnv) {
 			defer tgt.Close()
 
 			mon := newInsideMon(sc.Cfg)
-			var cr crashes
+			// cr: panics of limit operations (innermost maddy frame in internal/limits) - the
+			// "limit operations never crash" clause. dp: panics elsewhere inside a delivery call,
+			// contained call by call the way the queue / the SMTP server contain them: such a
+			// delivery has ended, whether it returned its permits is decided by the quiescent probes.
+			var cr, dp crashes
 			var wg sync.WaitGroup
 			for w := 0; w < sc.Workers; w++ {
 				wg.Add(1)
@@ -539,7 +612,7 @@ func runRemoteCases(t *testing.T, r *rep.Reporter, env instrEnv) {
 					defer wg.Done()
 					cr.Guard(func() {
 						for k, d := range sc.Plans[w] {
-							runRemoteDelivery(tgt, w, k, d, mon, &st)
+							runRemoteDelivery(tgt, w, k, d, mon, &st, &cr, &dp)
 						}
 					})
 				}(w)
@@ -549,17 +622,31 @@ func runRemoteCases(t *testing.T, r *rep.Reporter, env instrEnv) {
 				c.Done("", false)
 				return
 			}
-			cr.Report(c, "remote", sc)
-			mon.Report(c, "remote", sc)
+			var wit any = sc
+			if dp.Any() {
+				wit = map[string]any{"scenario": sc, "contained_delivery_panics": dp.Records(3)}
+			}
+			cr.Report(c, "remote", wit)
+			mon.Report(c, "remote", wit)
 			if !cr.Any() {
-				pb := &prober{c: c, r: r, g: g, cfg: sc.Cfg, layer: "remote", wit: sc, cr: &cr}
+				pb := &prober{c: c, r: r, g: g, cfg: sc.Cfg, layer: "remote", wit: wit, cr: &cr}
+				if dp.Any() {
+					// cause class of the witness: a delivery call panicked (outside the limiters) and was contained
+					pb.layer = "remote/cause=delivery-panicked"
+				}
 				pb.probeAll(net.IPv4(127, 0, 0, 1), "s0.example", rmDomain(0))
 				for k := 1; k < sc.Domains && !cr.Any(); k++ {
 					if !pb.probeDest(rmDomain(k)) {
 						break
 					}
 				}
-				cr.Report(c, "remote", sc)
+				// every ip / source key the deliveries used (probeAll took one of each)
+				pb.probeUsedMsgKeys(rmUsedKeys(sc))
+				cr.Report(c, "remote", wit)
+			}
+			for _, x := range dp.Records(0) {
+				r.Count("remote_delivery_panics_contained", 1)
+				r.Distinct("remote_delivery_panic_sites", x.Site)
 			}
 
 			r.Count("remote_deliveries_started", st.started.Load())
@@ -589,6 +676,20 @@ func runRemoteCases(t *testing.T, r *rep.Reporter, env instrEnv) {
 			})
 			st.others.Range(func(k, _ any) bool {
 				r.Distinct("remote_other_rcpt_errors", k.(string))
+				return true
+			})
+			nfaults := 0
+			st.faults.Range(func(k, v any) bool {
+				r.Count("nexthop_fault_"+k.(string), v.(*atomic.Int64).Load())
+				nfaults++
+				return true
+			})
+			st.faultCells.Range(func(k, _ any) bool {
+				r.Distinct("nexthop_fault_cells", k.(string))
+				return true
+			})
+			st.bodyExits.Range(func(k, v any) bool {
+				r.Count("remote_body_exit_"+k.(string), v.(*atomic.Int64).Load())
 				return true
 			})
 			tlsConns, reused := 0, 0
@@ -628,12 +729,18 @@ func runRemoteCases(t *testing.T, r *rep.Reporter, env instrEnv) {
 			}
 			shape := fmt.Sprintf("remote cfg=%s w=%d doms=%d reuse=%d tls=%v sts=%v local=%s prof=%s sat=%v mailfail=%v rcptrej=%v dotfail=%v to=%v exits=%d", sc.Cfg.Shape(), sc.Workers, sc.Domains, sc.ReuseLimit,
 				sc.ClientTLS, sc.MTASTS, sc.LocalPolicy, profs, sat > 0, failures, st.rcptRejected.Load() > 0, st.dotFailed.Load() > 0, st.startCtxErr.Load() > 0, exits)
-			c.Done(shape, sat > 0 || failures || st.startCtxErr.Load() > 0 || exits > 0)
-		})
+			if idx >= baseRemoteFault {
+				var cells []string
+				st.faultCells.Range(func(k, _ any) bool { cells = append(cells, k.(string)); return true })
+				sort.Strings(cells)
+				shape = "nexthop-" + shape + " faults=" + strings.Join(cells, ",")
+			}
+			c.Done(shape, sat > 0 || failures || st.startCtxErr.Load() > 0 || exits > 0 || nfaults > 0)
+		}
 	}
 }
 
-func runRemoteDelivery(tgt *remote.Target, w, k int, d rmDelivery, mon *insideMon, st *rmStats) {
+func runRemoteDelivery(tgt *remote.Target, w, k int, d rmDelivery, mon *insideMon, st *rmStats, cr, dp *crashes) {
 	from := ""
 	src := ""
 	if d.Src >= 0 {
@@ -647,9 +754,18 @@ func runRemoteDelivery(tgt *remote.Target, w, k int, d rmDelivery, mon *insideMo
 		ip = net.IPv4(198, 51, 100, byte(1+d.IP))
 		meta.Conn = &module.ConnState{RemoteAddr: &net.TCPAddr{IP: ip, Port: 1000}, Proto: "ESMTP"}
 	}
+	// Every call into the target is contained on its own (containPanic): the
+	// callers of a delivery in maddy (the queue's dispatch goroutine, go-smtp's
+	// command handlers) recover panics, so a panicking call ends the delivery
+	// but not the process - and the permits it held must be back all the same.
+	var del module.Delivery
+	var err error
 	ctx, cancel := mkCtx(d.StartCtx, d.StartUS)
-	del, err := tgt.Start(ctx, meta, from)
+	panicked := containPanic(cr, dp, func() { del, err = tgt.Start(ctx, meta, from) })
 	cancel()
+	if panicked {
+		return
+	}
 	if err != nil {
 		if isCtxErr(err) || strings.Contains(err.Error(), "High load") {
 			st.startCtxErr.Add(1)
@@ -662,10 +778,30 @@ func runRemoteDelivery(tgt *remote.Target, w, k int, d rmDelivery, mon *insideMo
 	msgKeys := []scopeKey{{scAll, ""}, {scIP, ip.String()}, {scSrc, src}}
 	mon.Enter(msgKeys...)
 	heldDom := map[int]bool{}
+	leave := func() {
+		for dom := range heldDom {
+			mon.Leave(scopeKey{scDest, rmDomain(dom)})
+		}
+		mon.Leave(msgKeys...)
+	}
+	// abortAfterPanic is what the endpoint's session does once go-smtp has
+	// recovered a panic of AddRcpt / Body: the transaction is aborted.
+	abortAfterPanic := func() {
+		leave()
+		st.aborts.Add(1)
+		containPanic(cr, dp, func() { del.Abort(context.Background()) })
+	}
 	for ri, rc := range d.Rcpts {
 		ctx, cancel := mkCtx(rc.Ctx, rc.US)
-		err := del.AddRcpt(ctx, fmt.Sprintf("r%d@%s", ri, rmDomain(rc.Domain)), smtp.RcptOptions{})
+		var err error
+		panicked := containPanic(cr, dp, func() {
+			err = del.AddRcpt(ctx, fmt.Sprintf("r%d@%s", ri, rmDomain(rc.Domain)), smtp.RcptOptions{})
+		})
 		cancel()
+		if panicked {
+			abortAfterPanic()
+			return
+		}
 		if err != nil {
 			if isCtxErr(err) {
 				st.rcptCtxErr.Add(1)
@@ -689,21 +825,30 @@ func runRemoteDelivery(tgt *remote.Target, w, k int, d rmDelivery, mon *insideMo
 		hdr := textproto.Header{}
 		hdr.Add("Subject", "c11")
 		hdr.Add("From", "<"+from+">")
-		if err := del.Body(context.Background(), hdr, buffer.MemoryBuffer{Slice: []byte("body\r\n")}); err != nil {
+		var err error
+		panicked := containPanic(cr, dp, func() {
+			err = del.Body(context.Background(), hdr, buffer.MemoryBuffer{Slice: rmBody(d.BodyBytes)})
+		})
+		if panicked {
+			abortAfterPanic()
+			return
+		}
+		if err != nil {
 			st.bodyErr.Add(1)
+			st.bodyExit(classifyBodyErr(err))
 		} else {
 			st.bodyOK.Add(1)
 		}
 	}
-	for dom := range heldDom {
-		mon.Leave(scopeKey{scDest, rmDomain(dom)})
-	}
-	mon.Leave(msgKeys...)
+	leave()
+	// A panic of Commit / Abort is not followed by a second call (the queue's
+	// dispatch goroutine just ends; a second Abort would be the harness releasing
+	// permits the delivery might already have released).
 	if d.End == "commit" {
 		st.commits.Add(1)
-		del.Commit(context.Background())
+		containPanic(cr, dp, func() { del.Commit(context.Background()) })
 	} else {
 		st.aborts.Add(1)
-		del.Abort(context.Background())
+		containPanic(cr, dp, func() { del.Abort(context.Background()) })
 	}
 }
